@@ -283,11 +283,45 @@ def r3_redaction(cx):
         for mode in ((True, False) if under is None else (under,)):
             out[mode] = canon
         return out
+    def _loop_modes(r, g):
+        """the written-out quantifier: for P in self._exclude: if TEST(P, line): return None   (no other way out of / around the loop body)"""
+        lp = enclosing(r, (ast.For, ast.While))
+        if not (isinstance(lp, ast.For) and U(lp.iter) == "self._exclude" and isinstance(lp.target, ast.Name) and not lp.orelse and parent(lp) is fn):
+            return None
+        if [x for x in walk_body(lp.body) if isinstance(x, (ast.Break, ast.Continue, ast.Return, ast.Raise)) and x is not r]:
+            return None
+        inner = set(guard_texts(r, stop=lp))
+        if inner != g or len(inner) != 1 or not list(inner)[0][1]:
+            return None
+        pv = lp.target.id
+        if assigns_to(lp.body, pv):
+            return None
+        try:
+            e = ast.parse(list(inner)[0][0], mode="eval").body
+        except SyntaxError:
+            return None
+        if isinstance(e, ast.Name):
+            d = assigns_to(lp.body, e.id)
+            if len(d) != 1 or guard_texts(d[0], stop=lp) or not isinstance(d[0], ast.Assign):
+                return None
+            e = d[0].value
+
+        def canon(x):
+            t = U(x)
+            return "re.search(P, line)" if t == "re.search(%s, %s)" % (pv, line_p) else "P in line" if t == "%s in %s" % (pv, line_p) else t
+        if isinstance(e, ast.IfExp) and U(e.test) == "self._regex":
+            return {True: canon(e.body), False: canon(e.orelse)}
+        if isinstance(e, ast.IfExp) and U(e.test) == "not self._regex":
+            return {False: canon(e.body), True: canon(e.orelse)}
+        return {True: canon(e), False: canon(e)}
     for r in none_rets:
         g = set((U(e), p) for e, p, o in guards_ex(r)) - set([(line_p, True)])      # 'if not line: return line' comes first
         modes = {}
         ok = len(g) == 1 and list(g)[0][1]
-        if ok:
+        lm = _loop_modes(r, g) if ok else None
+        if lm is not None:
+            modes = lm
+        elif ok:
             t = list(g)[0][0]
             if t.isidentifier():
                 cases = feat.value_cases(fn, t, before=r)
@@ -328,10 +362,12 @@ def r3_redaction(cx):
         cx.require(ok, f, "%s.parse_line passes a dropped (None/empty) line through unchanged" % cn, construct="if not line: return line")
     cm = cx.repo.module(CL)
     cc = cm.func("Cleaner.clean_content", "C08.R3")
+    shape.ensure_line_loop(cc, params(cc)[1])
     ap = [x for x in find_calls(cc.body, attr="append") if U(x.func.value) == "result"]
-    ok = len(ap) == 1 and isinstance(parent(ap[0]), ast.IfExp) and U(parent(ap[0]).test) == "line is not None"
+    av = U(ap[0].args[0]) if len(ap) == 1 and len(ap[0].args) == 1 else "line"
+    ok = len(ap) == 1 and isinstance(parent(ap[0]), ast.IfExp) and U(parent(ap[0]).test) == "%s is not None" % av
     if not ok and len(ap) == 1:
-        ok = ("line is None", False) in guard_texts(ap[0])
+        ok = ("%s is None" % av, False) in guard_texts(ap[0])
     cx.require(ok, ap[0] if ap else cc, "dropped lines (None) are omitted from the result", construct=short(parent(ap[0])) if ap else "(none)")
 
 
